@@ -44,6 +44,10 @@ func main() {
 		actChild(os.Args[2])
 		return
 	}
+	if cmd == "bridgechild" && len(os.Args) == 3 { // C03: bridge transport, see e2e.go
+		bridgeChild(os.Args[2])
+		return
+	}
 	fs := flag.NewFlagSet(cmd, flag.ExitOnError)
 	seed := fs.Uint64("seed", 1, "seed")
 	n := fs.Int("n", 1000, "number of cases")
